@@ -32,7 +32,12 @@ INFO = {
 }
 
 
+NAN_COLUMN = [None]      # pairs involving this column get the score NaN (an undefined score, e.g. a correlation with a constant column)
+
+
 def token(a, b):
+    if NAN_COLUMN[0] is not None and NAN_COLUMN[0] in (a, b):
+        return float('nan')
     return float(sum(ord(c) * (i + 1) for i, c in enumerate(a + '|' + b)) % 9973) + 0.25
 
 
@@ -70,7 +75,11 @@ def drive(cr, cols, label, heur, target_only, cap, fresh=True, ncpus=1):
         res = cr.mixed_rank_graph(df, args, PL.SerialPool(ncpus=ncpus), PL.PB())
     finally:
         cr.get_importances_estimate_pairwise = saved
-    return [tuple(t) for t in res.triplet_scores]
+    return [(t[0], t[1], _n(t[2])) for t in res.triplet_scores]
+
+
+def _n(s):
+    return 'NaN' if isinstance(s, float) and s != s else s
 
 
 def check(trip, cols, label, heur, target_only, cap):
@@ -94,7 +103,7 @@ def check(trip, cols, label, heur, target_only, cap):
             if a != b and cnt.get((b, a, s), 0) != k:
                 probs.append(f'orientation ({b}, {a}) with the same score as ({a}, {b}, {s}) is missing')
                 break
-            if s not in (token(a, b), token(b, a)):
+            if s not in (_n(token(a, b)), _n(token(b, a))):
                 probs.append(f'score of ({a}, {b}) is not the scorer\'s value for that pair')
                 break
         if len(trip) % 2:
@@ -151,8 +160,10 @@ def run_job(job):
         st['rel'] = [z3.Int(f'rel{i}') for i in range(m - 1)]
         for v in st['rel']:
             ctx.assume(v >= 0, v <= 2)
+        st['nan'] = z3.Bool('nan_scores')
         st['ncpus'] = z3.Int('ncpus')
         ctx.assume(st['ncpus'] >= 1, st['ncpus'] <= 3)
+        ctx.assume(z3.Implies(st['nan'], z3.And(st['ncpus'] == 1, st['to'] <= 1)))      # undefined scores are explored with the plain pool and the documented flag values
         ctx.assume(st['lpos'] >= 0, st['lpos'] < m, st['heur'] >= 0, st['heur'] < len(HEUR), st['cap'] >= 0, st['cap'] <= maxcap)
         for k, v in job['pins'].items():
             ctx.assume(z3.Int(k) == v)
@@ -163,9 +174,11 @@ def run_job(job):
         to = [False, True, 'true', 'bool'][int(SInt(st['to'], 0, 3))]
         rel = [int(SInt(r, 0, 2)) for r in st['rel']]
         ncpus = int(SInt(st['ncpus'], 1, 3))
+        nan = bool(symx.SBool(st['nan']))
         cap = int(SInt(st['cap'], 0, maxcap))
         cols = colnames(m, lpos, rel)
-        w = {'cond': 'pairs', 'cols': cols, 'heur': heur, 'target_only': to, 'cap': cap, 'ncpus': ncpus}
+        w = {'cond': 'pairs', 'cols': cols, 'heur': heur, 'target_only': to, 'cap': cap, 'ncpus': ncpus, 'nan': nan}
+        NAN_COLUMN[0] = next(c for c in cols if c != 'label') if (nan and len(cols) > 1) else None
         try:
             probs = check(drive(cr, cols, 'label', heur, to, cap, ncpus=ncpus), cols, 'label', heur, to, cap)
             if not probs and cap >= maxcap - 1:
@@ -189,6 +202,7 @@ def run_job(job):
 def replay(w):
     cr, cu, tr, ie = PL.real_modules()
     try:
+        NAN_COLUMN[0] = next(c for c in w['cols'] if c != 'label') if (w.get('nan') and len(w['cols']) > 1) else None
         trip = drive(cr, w['cols'], 'label', w['heur'], w['target_only'], w['cap'], ncpus=w.get('ncpus', 1))
         for k in range(2, w.get('batches', 1) + 1):
             trip = drive(cr, w['cols'], 'label', w['heur'], w['target_only'], w['cap'], fresh=False, ncpus=w.get('ncpus', 1))
@@ -196,5 +210,5 @@ def replay(w):
         return {'reproduced': True, 'signature': f'C06:exception:{type(e).__name__}', 'what': f'columns {w["cols"]}, {w["heur"]}, target_only={w["target_only"]}, cap {w["cap"]}: {type(e).__name__}: {e}'}
     probs = check(trip, w['cols'], 'label', w['heur'], w['target_only'], w['cap'])
     if probs:
-        return {'reproduced': True, 'signature': 'C06:' + probs[0].split()[0] + (':later-batch' if w.get('batches') else ''), 'what': (f'mini-batch {w["batches"]} of a history: ' if w.get('batches') else '') + f'pool of {w.get("ncpus", 1)} workers, columns {w["cols"]}, {w["heur"]}, target_only={w["target_only"]}, cap {w["cap"]}: ' + '; '.join(probs)[:500]}
+        return {'reproduced': True, 'signature': 'C06:' + probs[0].split()[0] + (':later-batch' if w.get('batches') else ''), 'what': (f'mini-batch {w["batches"]} of a history: ' if w.get('batches') else '') + f'pool of {w.get("ncpus", 1)} workers, ' + ('NaN scores for one column, ' if w.get('nan') else '') + f'columns {w["cols"]}, {w["heur"]}, target_only={w["target_only"]}, cap {w["cap"]}: ' + '; '.join(probs)[:500]}
     return {'reproduced': False, 'what': 'triplets match the specification'}
